@@ -343,8 +343,10 @@ def isItems : Srt → Bool
 theorem wf_build (d : String) {s : Srt} (e : E s) : wf (isItems s) (toT d (build e)) = true := by
   induction e with
   | col c => simp [build, toT, wf, isItems]
+  | rcol c => simp [build, toT, wf, isItems]
   | const i => simp only [build, isItems]; exact wf_int d i
   | fconst n i => simp only [build, isItems]; exact wf_flt d n i
+  | wconst n i k => simp only [build, isItems]; exact wf_flt d n i
   | ar o l r ihl ihr =>
     simp only [isItems] at ihl ihr ⊢
     simp only [build]
@@ -505,8 +507,10 @@ theorem ev_build (D : Dom) (r : Row D) (d : String) {s : Srt} (e : E s) :
     ev D r (toT d (build e)) = embed D s (eval D r e) := by
   induction e with
   | col c => simp [build, toT, ev, eval, embed]
+  | rcol c => simp [build, toT, ev, eval, embed]
   | const i => simp only [build, eval, embed]; exact ev_int D r d i
-  | fconst n i => simp only [build, eval, embed]; exact ev_flt D r d n i
+  | fconst n i => simp only [build, eval, embed, litVal]; exact ev_flt D r d n i
+  | wconst n i k => simp only [build, eval, embed, litVal]; exact ev_flt D r d n i
   | ar o l x ihl ihx =>
     simp only [embed] at ihl ihx ⊢
     simp only [build, eval]
@@ -661,8 +665,10 @@ theorem isNull_noneRule (d : String) (rule : NoneRule) (ov : OvBin) (a : Node) :
 theorem isNull_build (d : String) {s : Srt} (e : E s) : (toT d (build e)).isNull = false := by
   induction e with
   | col c => simp [build, toT, T.isNull]
+  | rcol c => simp [build, toT, T.isNull]
   | const i => simp only [build, toT]; split <;> simp [T.isNull]
   | fconst n i => simp only [build, toT]; split <;> simp [T.isNull]
+  | wconst n i k => simp only [build, toT]; split <;> simp [T.isNull]
   | ar o l r =>
     simp only [build]
     split
@@ -699,8 +705,10 @@ theorem eqNullT_noneRule (d : String) (a : Node) (h : eqNullT (toT d a) = false)
 theorem eqNullT_build (d : String) {s : Srt} (e : E s) : eqNullT (toT d (build e)) = false := by
   induction e with
   | col c => simp [build, toT, eqNullT]
+  | rcol c => simp [build, toT, eqNullT]
   | const i => simp only [build]; exact eqNullT_int d i
   | fconst n i => simp only [build]; exact eqNullT_flt d n i
+  | wconst n i k => simp only [build]; exact eqNullT_flt d n i
   | ar o l r ihl ihr =>
     simp only [build]
     split
